@@ -60,7 +60,8 @@ void h_um_ensure(JanetMarshalContext *ctx, size_t size) { g_ensure = size; g_ens
  * symbolic: no result within the time limit). Non-TRUNC: room for the padding, 2 constants and LOAD_SLACK words. */
 #define PADW(n) ((n) + ((n) & 1))            /* constants start 8-aligned: one pad word behind an odd number of words */
 #ifdef LOAD_TRUNC
-#define BLK(n) static struct { JanetPeg hdr; uint32_t words[(n) + ((n) == 0)]; } blk##n;
+/* packed: no tail padding behind the last word (a padded struct would hide a one-word overread for odd lengths) */
+#define BLK(n) static struct __attribute__((packed)) { JanetPeg hdr; uint32_t words[(n) + ((n) == 0)]; } blk##n;
 #define PICK(n) case n: g_mem = (char *) &blk##n; g_alloc = sizeof(JanetPeg) + 4 * (n); for (unsigned k = 0; k < (n); k++) blk##n.words[k] = nd_u32(); break;
 #else
 /* constants are a member of their own: an 8-byte store into the uint32 array would turn the whole array into a byte
@@ -82,6 +83,9 @@ void *h_um_abstract(JanetMarshalContext *ctx, size_t size) {
 #ifndef LOAD_TRUNC
   __CPROVER_assert(size <= g_alloc, "harness: typed block covers the requested size");
 #endif
+#ifdef LOAD_REJECT_ONLY
+  REACH("the image is read up to the allocation of the block (every path of this unit must then be rejected)");
+#endif
   return g_mem;
 }
 #ifdef VC_OWN_PANIC
@@ -92,7 +96,7 @@ void *h_calloc(size_t n, size_t sz) {
   g_flags_live = 1;
   return p;
 }
-void h_free(void *p) { g_flags_live = 0; free(p); }
+void h_free(void *p) { __CPROVER_assert(p != NULL, "free.pre"); g_flags_live = 0; }
 #endif
 
 /* size in words of an instruction by the bytecode format (peg.c / janet.h); 0 = unknown opcode */
@@ -140,19 +144,28 @@ static void load_case(uint32_t P, uint32_t blen, int fix_arg1, uint32_t arg1c) {
   __CPROVER_assert(P + w <= blen, "C10 peg loader: an instruction that does not fit into the bytecode is rejected (wf_peg: room)");
   __CPROVER_assert(peg_wf_instr(bc, isstart, P, g_nconst), "C10 peg loader: accepted => the wf_peg clause of this opcode holds (rule operands are instruction starts inside the bytecode, constant operands below num_constants, ...) - the matcher's precondition");
   __CPROVER_assert((peg->has_backref != 0) == (LOAD_OP == RULE_BACKMATCH || LOAD_OP == RULE_GETTAG), "C10 peg loader: has_backref is set iff the program uses back-references (the matcher records tagged captures only then)");
+#ifndef LOAD_REJECT_ONLY
   if (P == 0) REACH("peg_unmarshal accepts (instruction first)");
   if (P == 2 && P + w == blen) REACH("peg_unmarshal accepts (instruction last)");
   if (P + w < blen) REACH("peg_unmarshal accepts (instruction followed by others)");
+#endif
 }
 void h_load_op(void) {
   unsigned sel = nd_uint(), code = 0;
-#if defined(LOAD_LENS)
+#if defined(LOAD_TAIL)
+  /* LITERAL / CHOICE / SEQUENCE as the LAST word: the length operand itself lies behind the bytecode (arbitrary memory).
+   * Own unit: the instruction pointer is symbolic afterwards, the unit bounds the verifier loop tightly */
+  for (uint32_t P = 0; P <= 2; P += 2) {
+    if (sel == code) { load_case(P, P + 1, 0, 0); return; }
+    code++;
+  }
+#elif defined(LOAD_LENS)
   /* LITERAL / CHOICE / SEQUENCE: the length operand takes each of these constants */
   static const uint32_t lens[] = { LOAD_LENS };
   for (unsigned li = 0; li < sizeof(lens) / sizeof(lens[0]); li++) {
     uint32_t w = op_size(LOAD_OP, lens[li]);
     for (uint32_t P = 0; P <= 2; P += 2)
-      for (uint32_t blen = P + 1; blen <= BL; blen++) {
+      for (uint32_t blen = P + 2; blen <= BL; blen++) {
         if (w <= BL && blen > P + w + 2) continue;              /* at most one padding pair behind the instruction */
         if (w > BL && blen > P + 4) continue;
         if (sel == code) { load_case(P, blen, 1, lens[li]); return; }
@@ -173,13 +186,15 @@ void h_load_op(void) {
 #ifdef LOAD_FRAME
 /* framing: lengths from the image, size computation, order of reads, where the words and constants are stored, scratch
  * flags allocated per word and freed on BOTH exits; program = blen/2 x [RULE_NCHAR n] */
-static void frame_case(uint32_t blen) {
+static void frame_case(uint32_t blen, uint32_t nconst) {
   JanetMarshalContext ctx;
   g_blen = blen; g_ints = 0; g_janets = 0; g_order_ok = 1; g_ensured = 0; g_flags_live = 0;
-  g_nconst = nd_u32(); __CPROVER_assume(g_nconst <= 2);
+  g_nconst = nconst;
+  /* [RULE_NCHAR n] pairs; a program of odd length >= 3 ends with [RULE_LOOK offset target] */
   for (uint32_t k = 0; k < BL; k++) IMG[k] = (k & 1) ? nd_u32() : RULE_NCHAR;
+  if ((blen & 1) && blen >= 3) { IMG[blen - 3] = RULE_LOOK; IMG[blen - 2] = nd_u32(); IMG[blen - 1] = nd_u32(); }
   JanetPeg *peg = peg_unmarshal(&ctx);
-  __CPROVER_assert((blen & 1) == 0, "C10 peg loader: a program that ends inside its last instruction is rejected");
+  __CPROVER_assert(blen != 1, "C10 peg loader: a program that ends inside its last instruction is rejected");
   __CPROVER_assert((char *) peg == g_mem && peg->bytecode_len == blen && peg->num_constants == g_nconst, "C10 peg loader: header fields are the lengths read from the image");
   __CPROVER_assert(g_ints == 1 + (int) blen && g_janets == (int) g_nconst && g_order_ok, "C10 peg loader: reads num_constants, then exactly bytecode_len words, then exactly num_constants values (the order peg_marshal writes them)");
   __CPROVER_assert((blen + g_nconst == 0) ? g_ensured == 0 : (g_ensured == 1 && g_ensure == (size_t) blen + g_nconst - 1), "C10 peg loader: asks the unmarshaller for at least one input byte per word and constant BEFORE allocating");
@@ -192,10 +207,11 @@ static void frame_case(uint32_t blen) {
   __CPROVER_assert(peg->has_backref == 0, "C10 peg loader: no back-reference opcode, no has_backref");
   if (blen == 0) REACH("peg_unmarshal accepts (empty program)");
   if (blen == 4 && g_nconst == 2) REACH("peg_unmarshal accepts (two instructions, two constants)");
+  if (blen == 5 && g_nconst == 1) REACH("peg_unmarshal accepts (odd number of words: constants start behind a pad word)");
 }
 void h_load_frame(void) {
   unsigned sel = nd_uint();
-  for (uint32_t blen = 0; blen <= 5; blen++) if (sel == blen) { frame_case(blen); return; }
+  for (uint32_t blen = 0; blen <= 5; blen++) for (uint32_t nc = 0; nc <= 2; nc++) if (sel == blen * 3 + nc) { frame_case(blen, nc); return; }
 }
 /* untrusted lengths: every 64-bit bytecode length and 32-bit constant count: rejected or sized without wrap-around */
 static uint64_t g_blen64;
